@@ -8,9 +8,10 @@ THEOREMS = [
     "C03.sib_unique_step", "C03.sib_unique_run", "C03.pathNames_injective", "C03.split_join",
     "C03.path_name_injective", "C03.path_name_eq", "C03.depth_eq_length", "C03.sep_is_root_sep",
     "C03.find_full_path_path_name", "C03.find_full_path_variants", "C03.dup_refused_unchanged",
+    "C03.split_join_multi", "C03.path_name_injective_multi", "C03.find_full_path_multi",
 ]
 RULE = ("Node histories (user subclass with raising hooks) with names from {a,b,ab,ba,aa,'a b','a.b'} (equal names in "
-        "different branches, prefix/suffix related names), separators / . \\ | (and '::', tie only) never occurring in a "
+        "different branches, prefix/suffix related names), separators / . \\ | and '::' sharing no character with a "
         "name; after every call: outcome, store, path_name/depth/sep of every node; on the final store "
         "find_full_path(start, path_name(u)) for every ordered pair of nodes plus the variants without leading / with "
         "trailing separator.  Non-trivial: some node reaches depth >= 2 in the history.")
@@ -20,8 +21,9 @@ EXHAUSTIVE = {
 }
 MODELLED = ["strings are lists of characters; str.split / lstrip / rstrip / join re-implemented on them",
             "find_child_by_name raising SearchError (two children with one name) is an outcome, unreachable under the invariant"]
-ASSUMPTIONS = ["theorems about path strings assume a single-character separator occurring in no name and non-empty names; "
-               "multi-character separators are exercised by the tie only",
+ASSUMPTIONS = ["theorems about path strings assume non-empty names and a non-empty separator (of any length) that shares no "
+               "character with a name (for a one-character separator: it occurs in no name); names that merely start or end "
+               "with a character of a multi-character separator are mis-parsed by lstrip/rstrip - known finding K7",
                "renaming through node.name = ... / set_attrs is not a structural operation (excluded by the statement)"]
 
 
@@ -187,6 +189,6 @@ def replay_known(entry) -> bool:
 
 
 NOT_READY = False
-LEVEL_TEXT = "Proof. On the Node instance of the pointer-store model (pre-assign hooks run the user hook, then the duplicate-name check) and a List-Char model of path_name / depth / sep / find_full_path (str.split, lstrip, rstrip, join re-implemented): C03.sib_unique_step / sib_unique_run - in every state reachable through the structural API no two children of one parent share a name; dup_refused_unchanged - a duplicate attachment is refused and the store is unchanged; pathNames_injective - route names identify a node inside its tree; split_join - split(sep) inverts join(sep) for a one-character separator occurring in no piece; path_name_eq, path_name_injective - the path name is sep + sep.join(route names) and path names are pairwise distinct in a tree; depth_eq_length; sep_is_root_sep - every node reports the separator stored on its root, a node and its parent agree, after v.sep = x exactly v's tree reports x, a detached node reports its own field; find_full_path_path_name (+ find_full_path_variants: leading separator omitted / trailing separator added) - looking a node's path name up from any node of its tree returns that very node. Tied to /repo by differential testing of Node histories (names a,b,ab,ba,aa,'a b','a.b'; separators / . \\ | and ::) comparing path_name/depth/sep of every node after every call and all pairwise look-ups on the final store."
-LEVEL_NOTE = "String theorems assume a single-character separator that occurs in no name and non-empty names (what Node enforces); multi-character separators ('::') are covered by the tie only. The constructors (list/dict/dataframe/nested) are covered through C05/C13's models, not here. Renaming via node.name= is excluded by the statement." + " Known finding K7: multi-character separators are stripped as a character set (sep '__', names 'a' and 'a_'); names never start or end with a character of the separator in the tie, so it is replayed separately on every run."
+LEVEL_TEXT = "Proof. On the Node instance of the pointer-store model (pre-assign hooks run the user hook, then the duplicate-name check) and a List-Char model of path_name / depth / sep / find_full_path (str.split, lstrip, rstrip, join re-implemented): C03.sib_unique_step / sib_unique_run - in every state reachable through the structural API no two children of one parent share a name; dup_refused_unchanged - a duplicate attachment is refused and the store is unchanged; pathNames_injective - route names identify a node inside its tree; split_join - split(sep) inverts join(sep) for a one-character separator occurring in no piece; path_name_eq, path_name_injective - the path name is sep + sep.join(route names) and path names are pairwise distinct in a tree; depth_eq_length; sep_is_root_sep - every node reports the separator stored on its root, a node and its parent agree, after v.sep = x exactly v's tree reports x, a detached node reports its own field; find_full_path_path_name (+ find_full_path_variants: leading separator omitted / trailing separator added) - looking a node's path name up from any node of its tree returns that very node; split_join_multi, path_name_injective_multi, find_full_path_multi - the same three laws for EVERY non-empty separator ('::', '->', ...) and names sharing no character with it, incl. any run of separator characters in front of / behind the path (lstrip/rstrip strip a character set; a name starting or ending with a separator character falls outside: K7). Tied to /repo by differential testing of Node histories (names a,b,ab,ba,aa,'a b','a.b'; separators / . \\ | and ::) comparing path_name/depth/sep of every node after every call and all pairwise look-ups on the final store."
+LEVEL_NOTE = "String theorems assume non-empty names (what Node enforces) and a non-empty separator sharing no character with a name (one character: it occurs in no name); outside that domain multi-character separators are mis-stripped (known finding K7). The constructors (list/dict/dataframe/nested) are covered through C05/C13's models, not here. Renaming via node.name= is excluded by the statement." + " Known finding K7: multi-character separators are stripped as a character set (sep '__', names 'a' and 'a_'); names never start or end with a character of the separator in the tie, so it is replayed separately on every run."
 TECHNIQUE = 'Lean 4 invariant proof (SibUnique) + injectivity/round-trip theorems on List Char + correspondence check + model-free path oracle'
